@@ -27,6 +27,8 @@ def leaf_values(st):
     vals = st["vals"]
     if len(vals) < n:
         vals = (list(vals) * (n // max(1, len(vals)) + 1))[:n]
+    if "raw" in st:
+        return np.array(st["raw"], dtype=st.get("dtype", "float64")).reshape(shape)
     if st["kind"] in ("intarray", "inttensor"):
         return np.array(vals[:n], dtype=st.get("dtype", "int64")).reshape(shape)
     if st["kind"] == "intscalar":
